@@ -774,7 +774,10 @@ impl OrdSpecImpl for Version { open spec fn obeys_cmp_spec() -> bool { true } op
         for nm, oids in short.items():
             if re.search(r'\b' + re.escape(nm) + r'\s*(::<[^>]*>)?\(', t):
                 cg.update(o for o in oids if o != oid)
-        # operators and conversions that dispatch to extracted impls
+        # operators and conversions that dispatch to extracted impls (the grammar functions compare integers and characters only)
+        if oid in K.GRAMMAR_ORDER or oid in ('Version::parse_str', 'Extras::values'):
+            callgraph[oid] = sorted((cg & (set(K.GRAMMAR_ORDER) | {'Extras::values'})) - {oid})
+            continue
         if re.search(r'[^=!<>]=[=]|!=', t):
             cg.update(o for o in g.texts if o.endswith('::eq'))
         if re.search(r'<=|>=|[^-=]>[^=>]|[^<]<[^=<]', t) or 'max(' in t or 'min(' in t:
